@@ -174,6 +174,39 @@ impl Cluster {
         }
     }
 
+    /// Seed a record on `node` but hold back its disk write (and therefore the completion
+    /// notification): the node has accepted the record and serves it, the store index does not list it yet.
+    pub fn seed_with_write_pending(&mut self, node: usize, record: Record) {
+        let n = self.nodes[node].node.clone();
+        let rig = &mut self.nodes[node];
+        rig.d.exec.add("seed", async move {
+            let _ = n.store_replicated_in_record(record).await;
+        });
+        loop {
+            let en = rig.d.enabled_steps();
+            // everything except the store's write task
+            let pick = en.into_iter().find(|s| !matches!(s, crate::driver_rig::Step::Poll(id) if rig.d.exec.info(*id).func.ends_with("record_store.rs::put_verified")));
+            match pick {
+                Some(s) => rig.d.take_step(s),
+                None => break,
+            }
+        }
+        for id in rig.d.exec.unfinished() {
+            if rig.d.exec.info(id).func.ends_with("record_store.rs::put_verified") {
+                rig.d.exec.held.insert(id);
+            }
+        }
+        self.inflight.clear();
+        self.advertised.clear();
+        self.fetches.clear();
+    }
+
+    pub fn release_held(&mut self) {
+        for n in self.nodes.iter_mut() {
+            n.d.exec.held.clear();
+        }
+    }
+
     pub fn seed(&mut self, node: usize, record: Record) {
         let n = self.nodes[node].node.clone();
         let _ = self.nodes[node].run_no_io("seed", async move { n.store_replicated_in_record(record).await });
@@ -203,6 +236,8 @@ struct Scenario {
     seeds: Vec<(usize, Record)>,
     key: RecordKey,
     kind: &'static str,
+    /// the first seed's disk write is held back during round 1
+    first_write_pending: bool,
 }
 
 fn scenarios() -> Vec<Scenario> {
@@ -213,14 +248,18 @@ fn scenarios() -> Vec<Scenario> {
     let p1 = rec::pad(5, 1, b"pad one", 5);
     let p3 = rec::pad(5, 3, b"pad three", 5);
     vec![
-        Scenario { name: "chunk on A only", nodes: 2, seeds: vec![(0, rec::chunk_record(&chunk))], key: rec::chunk_key(&chunk), kind: "chunk" },
-        Scenario { name: "chunk on A only, 3 nodes", nodes: 3, seeds: vec![(0, rec::chunk_record(&chunk))], key: rec::chunk_key(&chunk), kind: "chunk" },
-        Scenario { name: "register ops{0} on A, ops{1} on B", nodes: 2, seeds: vec![(0, rec::reg_record(&fx.with_ops(&[0]))), (1, rec::reg_record(&fx.with_ops(&[1])))], key: rec::reg_key(&fx.base), kind: "register" },
-        Scenario { name: "register ops{0,1} on A, ops{1} on B", nodes: 2, seeds: vec![(0, rec::reg_record(&fx.with_ops(&[0, 1]))), (1, rec::reg_record(&fx.with_ops(&[1])))], key: rec::reg_key(&fx.base), kind: "register" },
-        Scenario { name: "transactions [t1] on A, [t2] on B", nodes: 2, seeds: vec![(0, rec::txs_record(tk.clone(), &[t[0].clone()])), (1, rec::txs_record(tk.clone(), &[t[1].clone()]))], key: tk.clone(), kind: "transaction" },
-        Scenario { name: "transactions [t1] on A, [t2] on B, [t3] on C", nodes: 3, seeds: vec![(0, rec::txs_record(tk.clone(), &[t[0].clone()])), (1, rec::txs_record(tk.clone(), &[t[1].clone()])), (2, rec::txs_record(tk.clone(), &[t[2].clone()]))], key: tk.clone(), kind: "transaction" },
-        Scenario { name: "scratchpad c=1 on A, c=3 on B", nodes: 2, seeds: vec![(0, rec::pad_record(&p1)), (1, rec::pad_record(&p3))], key: rec::pad_key(&p1), kind: "scratchpad" },
-        Scenario { name: "scratchpad c=3 on A only", nodes: 2, seeds: vec![(0, rec::pad_record(&p3))], key: rec::pad_key(&p3), kind: "scratchpad" },
+        Scenario { name: "chunk on A only", nodes: 2, seeds: vec![(0, rec::chunk_record(&chunk))], key: rec::chunk_key(&chunk), kind: "chunk", first_write_pending: false },
+        Scenario { name: "chunk on A only, 3 nodes", nodes: 3, seeds: vec![(0, rec::chunk_record(&chunk))], key: rec::chunk_key(&chunk), kind: "chunk", first_write_pending: false },
+        Scenario { name: "register ops{0} on A, ops{1} on B", nodes: 2, seeds: vec![(0, rec::reg_record(&fx.with_ops(&[0]))), (1, rec::reg_record(&fx.with_ops(&[1])))], key: rec::reg_key(&fx.base), kind: "register", first_write_pending: false },
+        Scenario { name: "register ops{0,1} on A, ops{1} on B", nodes: 2, seeds: vec![(0, rec::reg_record(&fx.with_ops(&[0, 1]))), (1, rec::reg_record(&fx.with_ops(&[1])))], key: rec::reg_key(&fx.base), kind: "register", first_write_pending: false },
+        Scenario { name: "transactions [t1] on A, [t2] on B", nodes: 2, seeds: vec![(0, rec::txs_record(tk.clone(), &[t[0].clone()])), (1, rec::txs_record(tk.clone(), &[t[1].clone()]))], key: tk.clone(), kind: "transaction", first_write_pending: false },
+        Scenario { name: "transactions [t1] on A, [t2] on B, [t3] on C", nodes: 3, seeds: vec![(0, rec::txs_record(tk.clone(), &[t[0].clone()])), (1, rec::txs_record(tk.clone(), &[t[1].clone()])), (2, rec::txs_record(tk.clone(), &[t[2].clone()]))], key: tk.clone(), kind: "transaction", first_write_pending: false },
+        Scenario { name: "scratchpad c=1 on A, c=3 on B", nodes: 2, seeds: vec![(0, rec::pad_record(&p1)), (1, rec::pad_record(&p3))], key: rec::pad_key(&p1), kind: "scratchpad", first_write_pending: false },
+        Scenario { name: "scratchpad c=3 on A only", nodes: 2, seeds: vec![(0, rec::pad_record(&p3))], key: rec::pad_key(&p3), kind: "scratchpad", first_write_pending: false },
+        // A has accepted its copy but the disk write is still pending when B's advertisement arrives
+        Scenario { name: "transactions [t1] on A (write pending), [t2] on B", nodes: 2, seeds: vec![(0, rec::txs_record(tk.clone(), &[t[0].clone()])), (1, rec::txs_record(tk.clone(), &[t[1].clone()]))], key: tk.clone(), kind: "transaction", first_write_pending: true },
+        Scenario { name: "register ops{0} on A (write pending), ops{1} on B", nodes: 2, seeds: vec![(0, rec::reg_record(&fx.with_ops(&[0]))), (1, rec::reg_record(&fx.with_ops(&[1])))], key: rec::reg_key(&fx.base), kind: "register", first_write_pending: true },
+        Scenario { name: "chunk on A only (write pending)", nodes: 2, seeds: vec![(0, rec::chunk_record(&chunk))], key: rec::chunk_key(&chunk), kind: "chunk", first_write_pending: true },
     ]
 }
 
@@ -286,12 +325,19 @@ fn run_scenario(run: &Run, sc: &Scenario, bound: usize, rounds: usize) {
         SchedOpts { label: sc.name.to_string(), bound, wall_cap: Some(Duration::from_secs(run.pick(30, 900))), exec_cap: None },
         |ch: &mut Chooser| {
             let mut cl = Cluster::new(sc.nodes);
-            for (n, r) in &sc.seeds {
-                cl.seed(*n, r.clone());
+            for (i, (n, r)) in sc.seeds.iter().enumerate().rev() {
+                if i == 0 && sc.first_write_pending {
+                    cl.seed_with_write_pending(*n, r.clone());
+                } else {
+                    cl.seed(*n, r.clone());
+                }
             }
             let seeded: Vec<usize> = sc.seeds.iter().map(|(n, _)| *n).collect();
-            for _ in 0..rounds {
+            for round in 0..rounds {
                 cl.round(ch);
+                if round == 0 {
+                    cl.release_held();
+                }
             }
             let got: Vec<String> = (0..sc.nodes).map(|i| content(&mut cl.nodes[i], &sc.key, sc.kind)).collect();
             outcomes.lock().unwrap().insert(format!("{got:?}"));
